@@ -263,6 +263,7 @@ Qed.
 
 Lemma ex_final_eq q : In q (upids ex_u) -> final q ex_ops1 = final q ex_ops2.
 Proof. intros H. vm_compute in H. repeat (destruct H as [<-|H]; [vm_compute; reflexivity|]). destruct H. Qed.
+Print Assumptions ex_final_eq.
 
 Example C04E_ex_no_trace :
   pkg_of_state ex_xi ex_u (run ex_ops1) = pkg_of_state ex_xi ex_u (run ex_ops2) /\
